@@ -78,6 +78,8 @@ pub enum CodeKind {
 pub enum Req {
     Solve(Strat),
     Get,
+    /// several solve requests sent back to back without waiting for any result (tasks overlap)
+    Burst(Vec<Strat>),
 }
 
 #[derive(Clone, Debug, Serialize, Deserialize)]
@@ -88,12 +90,15 @@ pub struct WebCase {
     pub reqs: Vec<Req>,
 }
 
-const POLL_LIMIT: Duration = Duration::from_secs(40);
+const POLL_LIMIT: Duration = Duration::from_secs(120);
 
-/// poll GET /adf/{name} until `slot` is filled
+/// poll GET /adf/{name} until `slot` is filled. A slot that stays empty for 8 s although its task
+/// is not (no longer) listed as running is a lost result (violation); a slot still empty after
+/// the overall bound while the task is listed as running is INCONCLUSIVE.
 pub fn poll_slot(c: &Client, jar: &mut Jar, name: &str, slot: &str, task: &Value) -> Result<Value, String> {
     let t0 = Instant::now();
     let mut sleep = 2u64;
+    let mut idle_since: Option<Instant> = None;
     loop {
         let r = c.get(jar, &format!("/adf/{}", crate::srvkit::http::urlencode_path(name)))?;
         if r.status != 200 {
@@ -104,20 +109,19 @@ pub fn poll_slot(c: &Client, jar: &mut Jar, name: &str, slot: &str, task: &Value
         if ty != "None" {
             return Ok(v);
         }
-        if t0.elapsed() > POLL_LIMIT {
-            let running = v["running_tasks"].as_array().map(|a| a.contains(task)).unwrap_or(false);
-            if running {
-                return Err(format!("INCONCLUSIVE: slot {slot} still empty after {POLL_LIMIT:?}, task still listed as running"));
-            }
-            // the worker ended; give the write 5 more seconds, then it is a lost result
-            std::thread::sleep(Duration::from_secs(5));
-            let v2 = c.get(jar, &format!("/adf/{}", crate::srvkit::http::urlencode_path(name)))?.json()?;
-            if v2["acs_per_strategy"][slot]["type"] == "None" {
+        let running = v["running_tasks"].as_array().map(|a| a.contains(task)).unwrap_or(false);
+        if running {
+            idle_since = None;
+        } else {
+            let since = *idle_since.get_or_insert_with(Instant::now);
+            if since.elapsed() > Duration::from_secs(8) {
                 return Err(format!(
-                    "slot {slot} is still empty although the task is no longer running: the result was never stored"
+                    "slot {slot} is still empty although its task has not been running for 8 s: the result was lost / never stored"
                 ));
             }
-            return Ok(v2);
+        }
+        if t0.elapsed() > POLL_LIMIT {
+            return Err(format!("INCONCLUSIVE: slot {slot} still empty after {POLL_LIMIT:?}, task still listed as running"));
         }
         std::thread::sleep(Duration::from_millis(sleep));
         sleep = (sleep * 2).min(50);
@@ -442,6 +446,8 @@ fn c16_check(c: &WebCase, st: &mut Stats) -> CheckResult {
     check_slot(&v, "parse_only", None, c, &decl)?;
     let mut solved: BTreeSet<Strat> = BTreeSet::new();
     let mut rich = 0usize;
+    let mut bursts = 0usize;
+    let mut twice_global: BTreeSet<Strat> = BTreeSet::new();
     for rq in &c.reqs {
         match rq {
             Req::Solve(s) => {
@@ -466,6 +472,57 @@ fn c16_check(c: &WebCase, st: &mut Stats) -> CheckResult {
                 }
                 solved.insert(*s);
             }
+            Req::Burst(list) => {
+                let mut accepted: Vec<Strat> = Vec::new();
+                let mut twice: BTreeSet<Strat> = BTreeSet::new();
+                for s in list {
+                    let r = cl.json(&mut jar, "PUT", "/adf/p/solve", &json!({"strategy": s.name()}))?;
+                    let must_conflict = solved.contains(s);
+                    match (must_conflict, r.status) {
+                        (true, 409) => {}
+                        // a strategy already requested in this burst may be refused (task known to be
+                        // running) or accepted again (task not yet registered / just finished): both fine
+                        (false, 409) if accepted.contains(s) => {}
+                        (false, 200) => {
+                            if !accepted.contains(s) {
+                                accepted.push(*s)
+                            } else {
+                                twice.insert(*s);
+                            }
+                        }
+                        (mc, st_) => {
+                            return Err(format!(
+                                "burst solve {}: status {st_} but {} was expected ({})",
+                                s.name(),
+                                if mc { 409 } else { 200 },
+                                r.text()
+                            ))
+                        }
+                    }
+                }
+                if accepted.len() >= 2 {
+                    bursts += 1;
+                }
+                twice_global.extend(twice.iter().copied());
+                for s in accepted {
+                    let task = json!({"type": "Solve", "content": s.name()});
+                    let v = poll_slot(&cl, &mut jar, "p", s.slot(), &task)?;
+                    // (if the same strategy was accepted twice, a second task may legitimately still run)
+                    if !twice.contains(&s) && v["running_tasks"].as_array().map(|a| a.contains(&task)).unwrap_or(false) {
+                        return Err(format!("slot {} is filled but the task is still reported as running", s.slot()));
+                    }
+                    let k = check_slot(&v, s.slot(), Some(s), c, &decl)?;
+                    if k >= 2 {
+                        rich += 1;
+                    }
+                    solved.insert(s);
+                }
+                // every earlier result must have survived the overlapping writes
+                let v = cl.get(&mut jar, "/adf/p")?.json()?;
+                for s in &solved {
+                    check_slot(&v, s.slot(), Some(*s), c, &decl).map_err(|e| format!("after overlapping solves: {e}"))?;
+                }
+            }
             Req::Get => {
                 let v = cl.get(&mut jar, "/adf/p")?.json()?;
                 check_slot(&v, "parse_only", None, c, &decl)?;
@@ -477,7 +534,11 @@ fn c16_check(c: &WebCase, st: &mut Stats) -> CheckResult {
                         return Err(format!("slot {} is filled although it was never requested", s.slot()));
                     }
                 }
-                if !v["running_tasks"].as_array().map(|a| a.is_empty()).unwrap_or(false) {
+                let unexpected: Vec<&Value> = v["running_tasks"]
+                    .as_array()
+                    .map(|a| a.iter().filter(|t| !twice_global.iter().any(|s| **t == json!({"type": "Solve", "content": s.name()}))).collect())
+                    .unwrap_or_default();
+                if !unexpected.is_empty() {
                     return Err(format!("all requested tasks have stored their result but running_tasks = {}", v["running_tasks"]));
                 }
             }
@@ -488,6 +549,9 @@ fn c16_check(c: &WebCase, st: &mut Stats) -> CheckResult {
         st.label(s.name());
     }
     st.count("http_problems", 1);
+    if bursts > 0 {
+        st.label("overlapping_solves");
+    }
     if solved.len() >= 3 && rich >= 1 {
         st.nontrivial(stable_hash(&(&code, c.hybrid, &c.reqs)), || {
             json!({"code": code, "parsing": parsing, "requests": c.reqs.iter().map(|r| format!("{r:?}")).collect::<Vec<_>>()})
@@ -519,7 +583,14 @@ fn web_case() -> BoxedStrategy<WebCase> {
             1 => any::<u16>().prop_map(CodeKind::Undeclared),
         ],
         any::<bool>(),
-        proptest::collection::vec(prop_oneof![4 => strat.prop_map(Req::Solve), 1 => Just(Req::Get)], 1..9),
+        proptest::collection::vec(
+            prop_oneof![
+                4 => strat.clone().prop_map(Req::Solve),
+                1 => Just(Req::Get),
+                2 => proptest::collection::vec(strat, 2..6).prop_map(Req::Burst),
+            ],
+            1..9,
+        ),
     )
         .prop_map(|((acs, labels, layout), kind, hybrid, reqs)| WebCase {
             adf: AdfCase { acs, labels, layout },
@@ -536,8 +607,8 @@ pub fn c16(tier: Tier) -> PropSpec {
         level: "exploration",
         rule: "the real server binary (built from the current tree) runs against an in-process MongoDB wire-protocol stub; each case = \
                code (well-formed ADF n<=5 with labels of all classes | grammar-invalid mutant | grammar-valid with an undeclared \
-               statement) x parsing Naive/Hybrid x a generated request order over the six strategies with repeated solves and \
-               interleaved GETs, by an anonymous (temporary) user. After add and every solve the slot is polled (bounded) and checked: \
+               statement) x parsing Naive/Hybrid x a generated request order over the six strategies with repeated solves, interleaved \
+               GETs and bursts of solve requests sent without waiting (overlapping tasks), by an anonymous (temporary) user. After add and every solve the slot is polled (bounded) and checked: \
                returned interpretations (root node TOP/BOT/inner per statement) as multiset == definitional answer; every graph: key \
                sets agree, each statement has exactly one root = the listed handle, leaves have no edges, inner nodes exactly one lo \
                and one hi edge, node set == closure of the roots, and following lo/hi edges under every total assignment consistent \
